@@ -314,8 +314,12 @@ type nxMsg struct {
 	sum uint64
 }
 
+// nxMsgSum is a content hash of a message. Not the wire encoding: a snapshot's
+// membership is encoded in map iteration order, which differs from call to call.
 func nxMsgSum(m pb.Message) uint64 {
-	return verifkit.Hash64(string(pb.MustMarshal(&m)))
+	b := &verifkit.CanonBuf{}
+	verifkit.ReflectCanon(b, m, map[string]bool{"Snapshot.refCount": true, "Snapshot.compactor": true})
+	return verifkit.Hash64(string(b.B))
 }
 
 type nxCluster struct {
